@@ -1,17 +1,28 @@
 /-
 C02 — property theorems for the node-tree builder model (EPV/Model/Builder.lean) against the XDM
-specification (EPV/Spec/XDMTree.lean).  Helper lemmas live in EPV/Lemmas/Builder*.lean.
+specification (EPV/Spec/XDMTree.lean).  Helper lemmas live in EPV/Lemmas/Builder*.lean, XDMItems.lean.
 
 Reading guide
-* `Input`            : what is handed to `get_node_tree` (library, Element/ElementTree, fragment, namespaces, tree)
-* `build i`          : the node tree with the positions the Python builders assign
-* `iter root`        : `root.iter()` — every node incl. the lazily created namespace and attribute nodes,
-                       as records `(kind, name, pos, parent position, string value)`
+* `Input`            : what is handed to `get_node_tree` (library, Element / ElementTree / lxml sub-element,
+                       `fragment`, `namespaces`, prolog / top element / epilog)
+* `build i`          : the node tree with the positions the Python builders assign (`Except`: lxml raises for
+                       a fragment of an empty tree)
+* `iter root`        : `root.iter()` — every node incl. the lazily created namespace and attribute nodes, as
+                       records `(kind, name, pos, parent position, string value)`
+* `specItems i`      : the XDM nodes of the call in document order `(idx, kind, name, parent idx, string value)`
+* `place s it`       : the item `it` put at position `s + it.idx` (parent at `s + parent idx`)
+* `inputWF i`        : every namespace map read by the builder has unique keys (it is a Python dict)
+* `inK i`            : trigger of known finding F02a (`lateTail`): some descendant element of the top element
+                       has a non-empty tail *and* a non-empty string below it
+* `blankIf true r`   : `r` with the string value erased if `r` is a document or element node
 -/
-import EPV.Lemmas.Builder
-import EPV.Spec.XDMTree
+import EPV.Lemmas.BuilderMain
+import EPV.Lemmas.BuilderOps
+import EPV.Lemmas.XDMItems
 namespace EPV.C02
 open EPV.Builder EPV.XDM
+
+/-! ## positions -/
 
 /-- HEADLINE.  For every input (any tree, any nesting, any attribute counts, any namespace maps — even
 ill-formed ones —, Element or ElementTree, lxml or xml.etree, every `fragment`, every `namespaces`
@@ -36,6 +47,221 @@ example :
       [.elem "y" m [] none [] (some "u"), .comment "c" none] none
     let i : Input := { cfg := { lxml := true, namespaces := [], fragment := none }, isTree := true,
                        prolog := [.pi "p" "d" none], top := some t, epilog := [], path := [] }
-    (build i).toOption.map (fun r => (iter r).map (·.pos)) = some (List.range' 1 15) := by decide
+    (build i).toOption.map (fun r => (iter r).map (·.pos)) = some (List.range' 1 15) ∧ inputWF i = true := by
+  decide
+
+/-! ## faithful image of the XDM tree -/
+
+/-- FAITHFUL IMAGE.  For every well-formed input on which the builder succeeds, the spec denotes a
+tree too, and `root.iter()` is exactly the XDM node list of the spec — same kinds, names, parents,
+string values of attribute/namespace/text/comment/PI nodes, in document order — with node number `k`
+sitting at position `root.pos + k`.  (String values of documents/elements: next section.) -/
+theorem iter_eq_spec (i : Input) (root : PNode) (h : build i = .ok root) (hwf : inputWF i = true) :
+    ∃ items, specItems i = some items ∧
+      (iter root).map (blankIf true) = (items.map (place root.pos)).map (blankIf true) :=
+  iter_eq_spec_aux true i root h hwf (by intro hb; cases hb)
+
+/-- `build_count`: exactly one node per element, attribute, in-scope namespace, comment, PI, document
+and non-`None` text/tail chunk — as many nodes as the XDM tree has. -/
+theorem build_count (i : Input) (root : PNode) (h : build i = .ok root) (hwf : inputWF i = true) :
+    ∃ items, specItems i = some items ∧ (iter root).length = items.length := by
+  obtain ⟨items, hs, he⟩ := iter_eq_spec i root h hwf
+  refine ⟨items, hs, ?_⟩
+  have := congrArg List.length he
+  simpa using this
+
+theorem pos_blankIf (b : Bool) (r : Rec) : (blankIf b r).pos = r.pos := by
+  unfold blankIf; split <;> rfl
+
+/-- `gap_exact`, global form: positions are *consecutive* — the reserved gap after every element is
+exactly filled by its namespace and attribute nodes, nothing overlaps, nothing is skipped:
+`root.iter()` carries the positions `p, p+1, p+2, …` (p = 1, or 0 for the dummy document). -/
+theorem gap_exact (i : Input) (root : PNode) (h : build i = .ok root) (hwf : inputWF i = true) :
+    (iter root).map (·.pos) = List.range' root.pos (iter root).length := by
+  obtain ⟨items, hs, he⟩ := iter_eq_spec i root h hwf
+  have hlen : (iter root).length = items.length := by simpa using congrArg List.length he
+  have h1 : (iter root).map (·.pos) = ((iter root).map (blankIf true)).map (·.pos) := by
+    simp [List.map_map, Function.comp_def, pos_blankIf]
+  rw [h1, he, hlen]
+  have h2 : ((items.map (place root.pos)).map (blankIf true)).map (·.pos) = (idxs items).map (root.pos + ·) := by
+    simp [List.map_map, Function.comp_def, pos_blankIf, place, idxs]
+  rw [h2, specItems_idxs i items hs, List.map_add_range']
+  simp
+
+/-- `gap_exact`, local form: a subtree built at position `p` ends exactly `number of its XDM nodes`
+positions later (the next sibling / tail text gets `p + size`). -/
+theorem gap_exact_subtree (c : Cfg) (t : XTree) (p : Nat) (hwf : treeWF c t = true) :
+    (buildOne c p t).2 = p + (itemsOne c none 0 t).length := by
+  have := (buildOne_spec c true p t p 0 none rfl hwf (by intro hb; cases hb)).2
+  exact this
+
+/-- the well-formedness hypothesis cannot be dropped from `gap_exact`: with a (non-dict) map that
+lists the `xml` prefix twice a position is skipped — while the strict order still holds. -/
+theorem gap_exact_needs_wf :
+    let m : NsMap := [(some "xml", "u"), (some "xml", "u")]
+    let i : Input := { cfg := { lxml := false, namespaces := m, fragment := none }, isTree := false,
+                       prolog := [], top := some (.elem "x" [] [("a", "1")] none [] none), epilog := [], path := [] }
+    inputWF i = false ∧ (build i).toOption.map (fun r => (iter r).map (·.pos)) = some [1, 2, 4] := by
+  decide
+
+/-! ## string values -/
+
+/-- PARTIAL (known finding F02a).  `string_value_concat`: the string value the implementation computes
+for an element equals the XDM string value (concatenation of the text-node descendants in document
+order) — provided the element is outside the F02a region.  The full statement
+`∀ t, elemStringValue t = stringValue t` is false: `string_value_concat_fails`. -/
+theorem string_value_concat_partial (t : XTree) (hk : lateTail t = false) :
+    elemStringValue t = stringValue t :=
+  elemStringValue_eq t hk
+
+/-- F02a witness: `<a><b>1<c>2</c></b>3</a>` — the implementation yields `b`'s tail before `c`'s text. -/
+theorem string_value_concat_fails :
+    let t : XTree := .elem "a" [] [] none [.elem "b" [] [] (some "1") [.elem "c" [] [] (some "2") [] none] (some "3")] none
+    lateTail t = true ∧ (elemStringValue t).toList = ['1', '3', '2'] ∧ (stringValue t).toList = ['1', '2', '3'] := by
+  decide
+
+/-- the hypothesis of the partial theorem is satisfiable on a non-trivial tree (mixed content, comment
+with a tail, nested elements whose tails are empty or whose content is empty) -/
+example :
+    let t : XTree := .elem "a" [] [] (some "x")
+      [.comment "c" (some "y"), .elem "b" [] [] (some "z") [.elem "c" [] [] none [] (some "v")] none,
+       .elem "b" [] [] none [] (some "w")] none
+    lateTail t = false ∧ (stringValue t).toList = ['x', 'y', 'z', 'v', 'w'] := by decide
+
+/-- always (inside the F02a region too): the implementation concatenates exactly the text chunks of the
+XDM string value, each once — only their order can differ. -/
+theorem string_value_chunks_perm (t : XTree) : (chunksOne true t).Perm (textsOne t) := by
+  cases t with
+  | elem name nsmap attrib text kids tail =>
+    simp only [chunksOne, textsOne, if_true, List.append_nil]
+    exact List.Perm.append_left _ (chunksKids_perm kids)
+  | comment s tl => simp [chunksOne, textsOne]
+  | pi t s tl => simp [chunksOne, textsOne]
+
+/-- PARTIAL (F02a).  The complete faithful image, string values of documents and elements included
+(a document's string value is that of its top element: comments and PIs do not contribute). -/
+theorem iter_eq_spec_full_partial (i : Input) (root : PNode) (h : build i = .ok root)
+    (hwf : inputWF i = true) (hk : inK i = false) :
+    ∃ items, specItems i = some items ∧ iter root = items.map (place root.pos) := by
+  obtain ⟨items, hs, he⟩ := iter_eq_spec_aux false i root h hwf (fun _ => hk)
+  refine ⟨items, hs, ?_⟩
+  have hid : ∀ l : List Rec, l.map (blankIf false) = l := by
+    intro l; induction l with
+    | nil => rfl
+    | cons a l ih => simp [blankIf, ih]
+  rwa [hid, hid] at he
+
+/-! ## operator layer (a node is its index in `iter root`, standing for Python object identity) -/
+
+/-- `$a is $b` ⇔ same node -/
+theorem is_iff_same_index (a b : Nat) : opIs a b = specIs a b := rfl
+
+/-- `precedes_iff_pos_lt`: on a built tree, `$a << $b` computed by walking `root.iter_document()` is
+`position(a) < position(b)`, which is document order `a < b`; never FOCA0002 for nodes of the tree. -/
+theorem precedes_iff_pos_lt (i : Input) (root : PNode) (h : build i = .ok root) (a b : Nat)
+    (ha : a < (iter root).length) (hb : b < (iter root).length) :
+    opPrecedes (iter root) a b = some (decide (posOf (iter root) a < posOf (iter root) b)) ∧
+    opPrecedes (iter root) a b = some (specPrecedes a b) := by
+  have hs : Strict (iter root) := build_positions_strict i root h
+  have hiff := posOf_lt_iff (iter root) hs ha hb
+  unfold opPrecedes specPrecedes
+  by_cases hab : a = b
+  · subst hab; simp
+  · have hw := walk_spec a b hab (iter root) 0 (Nat.zero_le _) (Nat.zero_le _) (by omega)
+    have : (a == b) = false := by simpa using hab
+    simp only [this, Bool.false_eq_true, if_false, hw, Option.some.injEq, decide_eq_decide]
+    exact ⟨hiff.symm, trivial⟩
+
+/-- `$a >> $b` likewise -/
+theorem follows_iff_pos_gt (i : Input) (root : PNode) (h : build i = .ok root) (a b : Nat)
+    (ha : a < (iter root).length) (hb : b < (iter root).length) :
+    opFollows (iter root) a b = some (decide (posOf (iter root) b < posOf (iter root) a)) ∧
+    opFollows (iter root) a b = some (specFollows a b) := by
+  have hs : Strict (iter root) := build_positions_strict i root h
+  have hiff := posOf_lt_iff (iter root) hs hb ha
+  unfold opFollows specFollows
+  by_cases hab : a = b
+  · subst hab; simp
+  · have hw := walk_spec a b hab (iter root) 0 (Nat.zero_le _) (Nat.zero_le _) (by omega)
+    have : (a == b) = false := by simpa using hab
+    simp only [this, Bool.false_eq_true, if_false, hw, Option.map_some, Option.some.injEq]
+    constructor
+    · by_cases hlt : a < b <;> simp [hlt, hiff] <;> omega
+    · by_cases hlt : a < b <;> simp [hlt] <;> omega
+
+/-- `union_sorted_nodup`: whatever order the Python `set` enumerates the operand nodes in (`l'` is any
+permutation), sorting by `position` returns the union in document order without duplicates —
+the spec's list. -/
+theorem union_eq_spec (i : Input) (root : PNode) (h : build i = .ok root) (xs ys l' : List Nat)
+    (hx : ∀ a ∈ xs, a < (iter root).length) (hy : ∀ a ∈ ys, a < (iter root).length)
+    (hl : l'.Perm (toSet (xs ++ ys))) :
+    sortByPos (iter root) l' = specUnion (iter root).length xs ys := by
+  have hs : Strict (iter root) := build_positions_strict i root h
+  refine sortByPos_eq (iter root) hs _ l' (select_pairwise _ _) (fun a ha => ((mem_select _ _ a).1 ha).1) ?_
+  refine hl.trans (perm_of_nodup_mem (nodup_toSet _) (select_nodup _ _) ?_)
+  intro a
+  unfold specUnion
+  rw [mem_toSet, mem_select]
+  simp only [List.mem_append, Bool.or_eq_true, List.contains_iff_mem]
+  constructor
+  · intro hm; exact ⟨hm.elim (hx a) (hy a), hm⟩
+  · intro hm; exact hm.2
+
+theorem intersect_eq_spec (i : Input) (root : PNode) (h : build i = .ok root) (xs ys l' : List Nat)
+    (hx : ∀ a ∈ xs, a < (iter root).length)
+    (hl : l'.Perm ((toSet xs).filter (ys.contains ·))) :
+    sortByPos (iter root) l' = specIntersect (iter root).length xs ys := by
+  have hs : Strict (iter root) := build_positions_strict i root h
+  refine sortByPos_eq (iter root) hs _ l' (select_pairwise _ _) (fun a ha => ((mem_select _ _ a).1 ha).1) ?_
+  refine hl.trans (perm_of_nodup_mem ((nodup_toSet _).filter _) (select_nodup _ _) ?_)
+  intro a
+  unfold specIntersect
+  rw [List.mem_filter, mem_toSet, mem_select]
+  simp only [Bool.and_eq_true, List.contains_iff_mem]
+  constructor
+  · intro hm; exact ⟨hx a hm.1, hm⟩
+  · intro hm; exact hm.2
+
+theorem except_eq_spec (i : Input) (root : PNode) (h : build i = .ok root) (xs ys l' : List Nat)
+    (hx : ∀ a ∈ xs, a < (iter root).length)
+    (hl : l'.Perm ((toSet xs).filter (!ys.contains ·))) :
+    sortByPos (iter root) l' = specExcept (iter root).length xs ys := by
+  have hs : Strict (iter root) := build_positions_strict i root h
+  refine sortByPos_eq (iter root) hs _ l' (select_pairwise _ _) (fun a ha => ((mem_select _ _ a).1 ha).1) ?_
+  refine hl.trans (perm_of_nodup_mem ((nodup_toSet _).filter _) (select_nodup _ _) ?_)
+  intro a
+  unfold specExcept
+  rw [List.mem_filter, mem_toSet, mem_select]
+  simp only [Bool.and_eq_true, List.contains_iff_mem]
+  constructor
+  · intro hm; exact ⟨hx a hm.1, hm⟩
+  · intro hm; exact hm.2
+
+/-- the operators of the model are instances (`l'` = the model's own enumeration) -/
+theorem opUnion_eq_spec (i : Input) (root : PNode) (h : build i = .ok root) (xs ys : List Nat)
+    (hx : ∀ a ∈ xs, a < (iter root).length) (hy : ∀ a ∈ ys, a < (iter root).length) :
+    opUnion (iter root) xs ys = specUnion (iter root).length xs ys :=
+  union_eq_spec i root h xs ys _ hx hy (List.Perm.refl _)
+
+/-- results of `union` are strictly increasing in document order, hence duplicate-free -/
+theorem union_sorted_nodup (n : Nat) (xs ys : List Nat) :
+    (specUnion n xs ys).Pairwise (· < ·) ∧ (specUnion n xs ys).Nodup :=
+  ⟨select_pairwise _ _, select_nodup _ _⟩
+
+/-- `fn:innermost` / `fn:outermost` (and every other position-sorted result): for any duplicate-free
+set of nodes of the tree, in any enumeration order, the result is that set in document order. -/
+theorem sorted_result_is_document_order (i : Input) (root : PNode) (h : build i = .ok root)
+    (s l' : List Nat) (hs' : s.Nodup) (hv : ∀ a ∈ s, a < (iter root).length) (hl : l'.Perm s) :
+    sortByPos (iter root) l' = select (iter root).length (s.contains ·) := by
+  have hs : Strict (iter root) := build_positions_strict i root h
+  refine sortByPos_eq (iter root) hs _ l' (select_pairwise _ _) (fun a ha => ((mem_select _ _ a).1 ha).1) ?_
+  refine hl.trans (perm_of_nodup_mem hs' (select_nodup _ _) ?_)
+  intro a
+  rw [mem_select]
+  simp only [List.contains_iff_mem]
+  exact ⟨fun hm => ⟨hv a hm, hm⟩, fun hm => hm.2⟩
+
+/-- `fn:root($n)` of a node of the tree is the first node of `root.iter()` -/
+theorem root_is_top (nodes : List Rec) (a : Nat) : opRoot nodes a = specRoot nodes.length a := rfl
 
 end EPV.C02
